@@ -539,6 +539,103 @@ func runC18(c *Check) {
 	ruleWriterWritesEveryValue(c, p)
 	c.Doc("C18-R7", "CS: the text encoder and decoder of every configuration leaf type with its own text codec are an inverse pair of the standard library applied to the whole value, with no transformation in between (what is written is what is read).")
 	ruleTextCodecsInverse(c, p)
+	ruleDecodeHooksPassValuesOn(c, p, "C18-R12")
+}
+
+// ruleDecodeHooksPassValuesOn (C18-R12): between viper and the configuration structure sits a
+// chain of decode hooks. A hook of the repository converts what its own leaf types need (a string
+// into a DurationWrapper) and hands everything else on untouched: a hook that rewrites values of a
+// general kind — every string expanded against the environment, trimmed, lower-cased — makes the
+// option differ from what the flag or the file said, and a saved configuration load back changed.
+func ruleDecodeHooksPassValuesOn(c *Check, p *Prog, rule string) {
+	c.Doc(rule, "VP+GA: every decode hook written in the configuration package returns its input value itself on every path that is not behind a test that the target type is one of the package's own leaf types (reflect.TypeOf(T{}) equality): values of general kinds (strings, numbers) reach the option exactly as given.")
+	var lv *ssa.Function
+	for _, f := range funcsCalling(p, configPkg, func(n string) bool { return n == "github.com/mitchellh/mapstructure.NewDecoder" }) {
+		lv = f
+	}
+	if lv == nil {
+		c.Unk(rule, "decode hooks", "", "", "anchor lost: the function that builds the decoder")
+		return
+	}
+	// the hooks: function values of the package with the (reflect.Type, reflect.Type, any) (any, error) shape
+	var hooks []*ssa.Function
+	consider := func(fn *ssa.Function) {
+		sig := fn.Signature
+		if sig.Params().Len() == 3 && sig.Results().Len() == 2 && sig.Params().At(0).Type().String() == "reflect.Type" && sig.Params().At(1).Type().String() == "reflect.Type" && sig.Results().At(1).Type().String() == "error" {
+			hooks = append(hooks, fn)
+		}
+	}
+	for _, fn := range p.Funcs {
+		pk := fnPkg(fn)
+		if pk == nil || pk.Pkg.Path() != configPkg || fn.Blocks == nil {
+			continue
+		}
+		consider(fn)
+	}
+	if len(hooks) == 0 {
+		c.Unk(rule, "decode hooks", fnName(lv), "", "anchor lost: no decode hook of the configuration package found")
+		return
+	}
+	for _, h := range hooks {
+		g := BuildECFG(p, h, ExpandOpts{MaxDepth: 0})
+		c.NoteGraph(g)
+		data := h.Params[len(h.Params)-1]
+		if len(h.FreeVars) == 0 && h.Signature.Recv() == nil && len(h.Params) == 3 {
+			data = h.Params[2]
+		}
+		bad := ""
+		for _, x := range g.Exits {
+			if g.ExitClass(x) == rcA {
+				continue
+			}
+			ret := x.In.(*ssa.Return)
+			v := spilledResult(ret, 0)
+			if v == ssa.Value(data) {
+				continue
+			}
+			if mi, ok := v.(*ssa.MakeInterface); ok && mi.X == ssa.Value(data) {
+				continue
+			}
+			// behind "target type is one of our own leaf types"
+			own := false
+			xx := x
+			for _, f := range g.NecessaryEdges(func(n *Node) bool { return n == xx }) {
+				a, op, b, okc := canonCmp(f.Cond, f.Pol)
+				if !okc || op != "==" {
+					continue
+				}
+				for _, t := range []*Term{a, b} {
+					t.Walk(func(y *Term) bool {
+						if y.Op != "call" || y.Name != "reflect.TypeOf" {
+							return true
+						}
+						cv, isCall := y.V.(*ssa.Call)
+						if !isCall || len(cv.Common().Args) != 1 {
+							return true
+						}
+						arg := cv.Common().Args[0]
+						if mi, isMI := arg.(*ssa.MakeInterface); isMI {
+							arg = mi.X
+						}
+						if nt, isN := derefType(arg.Type()).(*types.Named); isN && nt.Obj().Pkg() != nil && nt.Obj().Pkg().Path() == configPkg {
+							own = true
+						}
+						return true
+					})
+				}
+			}
+			if !own {
+				bad = p.InstrPos(ret) + ": " + trunc(TermOf(v, x.Ctx).String(), 80)
+			}
+		}
+		inst := "hook " + fnShort(h) + " ⟂ passes other values on unchanged"
+		if bad == "" {
+			c.OK(rule, inst, fnName(h), p.Pos(h.Pos()), "every return outside a test for one of the package's own leaf types hands the input value back", true)
+		} else {
+			c.Bad(rule, inst, fnName(h), p.Pos(h.Pos()), "the decode hook returns a rewritten value for targets of a general kind ("+bad+"): what a flag or the file says no longer reaches the option unchanged (a '$' in a token or a JSON blob is expanded against the environment), and a configuration that was saved loads back different", nil)
+		}
+	}
+	c.MinInstances(rule, 1)
 }
 
 // ruleTextCodecsInverse (C18-R7).
